@@ -670,13 +670,16 @@ def scale_stream(rep: Report, rng: Rng):
 
 # ------------------------------------------------------------------ kernel stream (generated terms vs the real kernels)
 # (T) harness/translators/kernels.py translates the curve kernels it covers (family "C05": `_riemann_integral`, `_compute_for_each_class`,
-# `_binary_precision_recall_curve_compute`, `_binary_auroc_compute_jit` for one task) from their
+# `_binary_precision_recall_curve_compute`, `_binary_auroc_compute_jit` for one task, `_binary_auprc_compute` (one task and the loop over
+# `num_tasks` rows), `_recall_at_precision`, `_binary_recall_at_fixed_precision_compute`) from their
 # source into terms of TE/Model/TExpr.lean (TE/Gen/KernelsCurve.lean, regenerated here); TE/Props/C05_Kernels.lean proves the generated
 # terms equal to the models of TE/Model/Curve.lean; this stream runs the generated terms against the REAL functions.
 
 KERNEL_MODULES = {"tensor_utils": "torcheval.metrics.functional.tensor_utils",
                   "classification/precision_recall_curve": "torcheval.metrics.functional.classification.precision_recall_curve",
-                  "classification/auroc": "torcheval.metrics.functional.classification.auroc"}
+                  "classification/auroc": "torcheval.metrics.functional.classification.auroc",
+                  "classification/auprc": "torcheval.metrics.functional.classification.auprc",
+                  "classification/recall_at_fixed_precision": "torcheval.metrics.functional.classification.recall_at_fixed_precision"}
 
 
 def translate(rep: Report):
@@ -714,7 +717,8 @@ def kernel_stream(rep: Report, rng: Rng):
             calls.append(("riemann_integral", {"x": x, "y": y}, call_real(rows["riemann_integral"]["fn"], x, y)))
     def usable(kid):
         return rows.get(kid, {}).get("term") is not None and rows[kid].get("fn") is not None
-    if usable("compute_for_each_class") or usable("binary_precision_recall_curve_compute"):
+    if any(usable(k_) for k_ in ("compute_for_each_class", "binary_precision_recall_curve_compute", "binary_auprc_compute",
+                                 "recall_at_precision", "binary_recall_at_fixed_precision_compute")):
         # scores with ties, all-negative / all-positive targets (recall NaN -> 1), n = 0 (RuntimeError inside TorchScript)
         cases = []
         for n in range(0, 4):
@@ -732,6 +736,31 @@ def kernel_stream(rep: Report, rng: Rng):
             if usable("binary_precision_recall_curve_compute"):
                 calls.append(("binary_precision_recall_curve_compute", {"input": x, "target": t},
                               call_real(rows["binary_precision_recall_curve_compute"]["fn"], x, t)))
+            if usable("binary_auprc_compute"):
+                # one task, 1-d (the `for i in range(num_tasks)` branch is outside the grammar: kernels_coverage)
+                calls.append(("binary_auprc_compute", {"input": x, "target": t, "num_tasks": 1},
+                              call_real(rows["binary_auprc_compute"]["fn"], x, t, 1)))
+            # recall at fixed precision: dyadic bounds (exactly comparable with float32 precisions), a bound above 1 (`torch.max` of an
+            # empty selection raises); `_recall_at_precision` on the curve the REAL curve kernel returned
+            mp = rng.choice([Fr(0), Fr(1, 4), Fr(1, 2), Fr(3, 4), Fr(1), Fr(3, 2)])
+            if usable("binary_recall_at_fixed_precision_compute"):
+                calls.append(("binary_recall_at_fixed_precision_compute", {"input": x, "target": t, "min_precision": mp},
+                              call_real(rows["binary_recall_at_fixed_precision_compute"]["fn"], x, t, float(mp))))
+            if usable("recall_at_precision") and usable("binary_precision_recall_curve_compute"):
+                cur = call_real(rows["binary_precision_recall_curve_compute"]["fn"], x, t)
+                if cur[0] == "ok":
+                    p_, r_, t_ = cur[1]
+                    calls.append(("recall_at_precision", {"precision": p_, "recall": r_, "thresholds": t_, "min_precision": mp},
+                                  call_real(rows["recall_at_precision"]["fn"], p_, r_, t_, float(mp))))
+    if usable("binary_auprc_compute"):
+        # several tasks: (num_tasks, n) inputs, one AUPRC per row (the Python-level loop of the kernel), also one row and n = 0
+        for _ in range(600 if rep.tier == "thorough" else 150):
+            rows_, n = rng.choice([1, 2, 2, 3]), rng.choice([0, 1, 2, 3, 5, 9])
+            xs = [v for _r in range(rows_) for v in (tie_heavy(rng, n) if rng.random() < 0.6 else rng.grid(n, G5))]
+            tsv = [v for _r in range(rows_) for v in labels(rng, n)]
+            x, t = ft(xs, shape=(rows_, n)), it(tsv, shape=(rows_, n))
+            calls.append(("binary_auprc_compute", {"input": x, "target": t, "num_tasks": rows_},
+                          call_real(rows["binary_auprc_compute"]["fn"], x, t, rows_)))
     if usable("binary_auroc_compute_jit"):
         # one task (1-d): ties, constant targets (factor 0 -> 0.5), with and without per-sample weights, n = 0 (RuntimeError);
         # the `num_tasks > 1` branch is outside the grammar (kernels_coverage)
@@ -749,8 +778,13 @@ def kernel_stream(rep: Report, rng: Rng):
             w = ft(rng.grid(len(xs), W3)) if rng.random() < 0.5 else None
             calls.append(("binary_auroc_compute_jit", {"input": x, "target": t, "weight": w},
                           call_real(rows["binary_auroc_compute_jit"]["fn"], x, t, w)))
-    lines = [f"fn gen.{kid} " + " ".join(f"{k}={enc_tensor(v) if isinstance(v, torch.Tensor) else ('none' if v is None else 'i.' + str(v))}"
-                                         for k, v in a.items()) for kid, a, _ in calls]
+    def enc_kv(v):
+        if isinstance(v, torch.Tensor):
+            return enc_tensor(v)
+        if v is None:
+            return "none"
+        return "q." + str(v) if isinstance(v, Fr) else "i." + str(v)
+    lines = [f"fn gen.{kid} " + " ".join(f"{k}={enc_kv(v)}" for k, v in a.items()) for kid, a, _ in calls]
     outs = run_driver(lines)
     nbad = {}
     for (kid, a, real), line, o in zip(calls, lines, outs):
